@@ -1820,6 +1820,9 @@ func Expire() int {
 
 	verifExpireYield()
 	count := count()
+	if count == 0 {
+		return 0
+	}
 	fair := low / int64(count)
 
 	bigcount := 0
@@ -1834,6 +1837,10 @@ func Expire() int {
 		return true
 	})
 
+	if bigcount == 0 {
+		// the torrents shrank since we sampled alloc.Bytes()
+		return 0
+	}
 	fair2 := (low - smallspace) / int64(bigcount)
 
 	Range(func(h hash.Hash, t *Torrent) bool {
